@@ -64,6 +64,8 @@ def c19_clicks(ctx, plane, cunit, bare, sfunit, tdunit, td_bare):
         else:
             s = p.Sight(plane, getattr(U, sfunit)(sf), cu(ch), cu(cv))
         tdq = td if td_bare else getattr(U, tdunit)(td)
+        # the calibration distance is re-displayed in another unit after construction (display unit only; magnitude unchanged)
+        s.scale_factor << getattr(U, DIST_UNITS[(DIST_UNITS.index(sfunit) + 4) % len(DIST_UNITS)])
         if plane == 'SFP':
             k = _inch(sf, sfunit) / _inch(td, tdunit) * mag
             ctx.assume((rad_h * k <= (1e-3 if kind == 'tan' else 6.28)) & (rad_v * k <= (1e-3 if kind == 'tan' else 6.28)))
@@ -101,7 +103,8 @@ def c19_row(ctx, plane, cunit):
     z = ctx.real('z', -1e4, 1e4)
     cv = ctx.real('click', 1e-3, 10)
     mag = ctx.real('magnification', 0.1, 100)
-    row = create_trajectory_row(1.0, Vector(x, y, z), Vector(2000.0, 0.0, 0.0), 2000.0, 1116.0, 0.0, 0.0, 1.0, 0.0, 150.0, 8)
+    look = ctx.real('look', -1.0, 1.0)        # inclined sight line: the row's look_distance differs from its distance
+    row = create_trajectory_row(1.0, Vector(x, y, z), Vector(2000.0, 0.0, 0.0), 2000.0, 1116.0, 0.0, look, 1.0, 0.0, 150.0, 8)
     rad, _ = _angle_rad(ctx, cv, cunit)
     k = {'FFP': 1, 'LWIR': 1 / mag, 'SFP': 3600 / (x * 12) * mag}[plane]
     ctx.assume(rad * k <= 6.28)      # effective click below one turn (placed before the code it constrains)
